@@ -452,8 +452,11 @@ func New(tree ast.Tree, root string, logger logger.Logger) (*SpokFile, error) {
 func expandGlob(root, pattern string) ([]string, error) {
 	var matches []string
 	ignoreHiddenGlobFn := func(path string, d fs.DirEntry) error {
-		if strings.HasPrefix(path, ".") {
-			return filepath.SkipDir
+		if path == "." || strings.HasPrefix(path, ".") {
+			// Leave out hidden entries (and the root itself, which "**" matches) one by one.
+			// Returning filepath.SkipDir here would also drop every entry still to come in the
+			// directory being listed, i.e. unrelated, non-hidden matches
+			return nil
 		}
 
 		abs, err := filepath.Abs(filepath.Join(root, path))
